@@ -268,16 +268,20 @@ impl Duration {
         microseconds: u64,
         nanoseconds: u64,
     ) -> Self {
-        Self::compose_f64(
-            sign,
-            days as f64,
-            hours as f64,
-            minutes as f64,
-            seconds as f64,
-            milliseconds as f64,
-            microseconds as f64,
-            nanoseconds as f64,
-        )
+        // Integer arithmetic only: no nanosecond is lost to floating point rounding.
+        let total_ns = i128::from(days) * i128::from(NANOSECONDS_PER_DAY)
+            + i128::from(hours) * i128::from(NANOSECONDS_PER_HOUR)
+            + i128::from(minutes) * i128::from(NANOSECONDS_PER_MINUTE)
+            + i128::from(seconds) * i128::from(NANOSECONDS_PER_SECOND)
+            + i128::from(milliseconds) * i128::from(NANOSECONDS_PER_MILLISECOND)
+            + i128::from(microseconds) * i128::from(NANOSECONDS_PER_MICROSECOND)
+            + i128::from(nanoseconds);
+        let me = Self::from_total_nanoseconds(total_ns);
+        if sign < 0 {
+            -me
+        } else {
+            me
+        }
     }
 
     /// Creates a new duration from its parts. Set the sign to a negative number for the duration to be negative.
